@@ -43,6 +43,11 @@ from pyvc.protomodel import SymList, Str
 from pyvc.source import ModuleInfo
 from contracts import c16 as K
 
+# the C16 module treats every scalar term as a plain Python scalar (an attribute the Python type lacks is an AttributeError); array
+# elements are numpy scalars, which do have .item() / .astype(): the numpy-scalar hook must see the attribute first.  (The value model
+# does not distinguish np.float64 from float, so `.item()` on a genuine Python float is accepted too -- stated over-approximation.)
+NP._chain('value_getattr_hook', SK._cast_getattr)
+
 CORE = 'vizier.pyvizier.converters.core'
 PCM = K.PCM
 TRM = K.TRM
